@@ -127,6 +127,31 @@ fn main() {
                 for x in &fv { for y in &gv { let mut args = base.clone(); args.extend(flag_args(f, x)); args.extend(flag_args(g, y)); jobs.push((args, stdin.clone())); } }
             }}
         }
+        // custom precedence orders, systematically: every ordered pair, every single, every "all but one" and the
+        // reversal of the 11 precedence names, on stdin and through --schema-ron, x every flag x a typed small pool
+        let prec = ["Epoch", "Major", "Minor", "Patch", "Core", "PreReleaseLabel", "PreReleaseNum", "Post", "Dev", "ExtraCore", "Build"];
+        let mut orders: Vec<String> = vec![];
+        for x in prec { orders.push(format!("[{x}]")); for y in prec { if x != y { orders.push(format!("[{x},{y}]")); } } }
+        for skip in prec { orders.push(format!("[{}]", prec.iter().filter(|p| **p != skip).copied().collect::<Vec<_>>().join(","))); }
+        orders.push(format!("[{}]", prec.iter().rev().copied().collect::<Vec<_>>().join(",")));
+        let po_pool = a(&["0", "~1", "0=5", "1=x", "-1"]);
+        let po_orders: Vec<&String> = if quick { orders.iter().step_by(1).collect() } else { orders.iter().collect() };
+        for (oi, po) in po_orders.iter().enumerate() {
+            let doc = valid_doc.replace("build:[var(BumpedBranch)])", &format!("build:[var(BumpedBranch)],precedence_order:{po})"));
+            let ron = format!("(core:[var(Major),var(Minor),var(Patch)],extra_core:[var(Epoch),var(PreRelease),var(Post),var(Dev)],build:[str(\"b\")],precedence_order:{po})");
+            for f in &flags {
+                if f.long == "source" || f.long == "directory" || f.long == "schema-ron" || f.long == "schema" { continue; }
+                // quick: bump/override flags only get the whole pool, the rest one value
+                let bumpish = f.long.starts_with("bump") || ["core", "extra-core", "build", "major", "minor", "patch", "epoch", "post", "dev", "pre-release-label", "pre-release-num"].contains(&f.long.as_str());
+                if !bumpish && (quick || oi % 7 != 0) { continue; }
+                let vals: Vec<&String> = if f.takes_value { po_pool.iter().collect() } else { vec![&po_pool[0]] };
+                for v in vals {
+                    let mut a1 = a(&[sub, "--source", "stdin"]); a1.extend(flag_args(f, v)); jobs.push((a1, Some(doc.clone())));
+                    let mut a2 = a(&[sub, "--source", "none", "--tag-version", "1.2.3-rc.1.post.2", "--schema-ron", &ron]); a2.extend(flag_args(f, v)); jobs.push((a2, None));
+                }
+                if f.optional_value { let mut a1 = a(&[sub, "--source", "stdin", &format!("--{}", f.long)]); a1.push("--output-format".into()); a1.push("zerv".into()); jobs.push((a1, Some(doc.clone()))); }
+            }
+        }
         // -C / --directory values (git source)
         for d in ["", "/nonexistent/zv", "/dev/null", "/", "é€", "a\nb", "."] { jobs.push((a(&[sub, "-C", d]), None)); jobs.push((a(&[sub, "--source", "git", "--directory", d, "--tag-version", "1.2.3"]), None)); }
         // malformed stdin documents
@@ -196,7 +221,7 @@ fn main() {
     cov.transitions = cov.evaluations;
     cov.traces_validated = cov.evaluations;
     cov.distinct_nontrivial = all.get("zerv_error") + all.get("usage_error") + all.get("process_failed") + all.get("fault_plans");
-    cov.rule = format!("(a) flags read from Cli::command() at run time; for version and flow in 4 source contexts every single flag x a {}-value adversarial pool, every pair of flags x a {}-value pool, malformed stdin documents; render/check on {} nasty version strings x formats x templates; every template function x argument pool singles and pairs: {} in-process runs under catch_unwind; (b) a strided slice of those through the real binary plain and with -v (stdout identical, exit/stream protocol), help/version/llm-help; (c) git faults: for each of 6 repository scenarios x [version, flow] the shim records the N git calls of a fault-free run, then every k<=N x 6 fault modes (deviation 1){}, plus git missing / -C to a missing path / file / non-repository. non-trivial = runs that end in an error path plus fault plans", pool.len(), spool.len(), versions.len(), jobs.len(), if quick { "" } else { " and every pair of fault points in 2 modes (deviation 2)" });
+    cov.rule = format!("(a) flags read from Cli::command() at run time; for version and flow in 4 source contexts every single flag x a {}-value adversarial pool, every pair of flags x a {}-value pool, malformed stdin documents; 133 custom precedence orders (every single, every ordered pair, every all-but-one, reversed) on stdin and via --schema-ron x every bump/override flag x a 5-value pool; render/check on {} nasty version strings x formats x templates; every template function x argument pool singles and pairs: {} in-process runs under catch_unwind; (b) a strided slice of those through the real binary plain and with -v (stdout identical, exit/stream protocol), help/version/llm-help; (c) git faults: for each of 6 repository scenarios x [version, flow] the shim records the N git calls of a fault-free run, then every k<=N x 6 fault modes (deviation 1){}, plus git missing / -C to a missing path / file / non-repository. non-trivial = runs that end in an error path plus fault plans", pool.len(), spool.len(), versions.len(), jobs.len(), if quick { "" } else { " and every pair of fault points in 2 modes (deviation 2)" });
     cov.exhaustive = true;
     cov.samples = vec![json!(jobs[jobs.len() / 2].0), json!(jobs[17].0), json!({"scenario":"ahead+dirty","command":"flow","fault_at":7,"mode":"garbage"})];
     cov.set("clause_counts", all.to_json());
